@@ -100,8 +100,7 @@ D(v) == vals[v].dt
 Rk(v) == Len(vals[v].ev[1].shape)
 NumV == {v \in Vis : D(v) \in {"i64", "f32"}}
 BoolV == {v \in Vis : D(v) = "bool"}
-\* the counter used in generated names: the graph's own node count (code) / one shared counter (design)
-CntI(fr) == fr.nn
+\* the counter used in generated names: the graph's own node count nn (code) / one counter gn shared through the root (design)
 NoBlk == [ins |-> <<>>, body |-> <<>>, res |-> <<>>, g |-> <<>>]
 NoPend == [k |-> 0, a |-> 0, b |-> 0, trip |-> 0, ins |-> <<>>, blk |-> NoBlk]
 Val(dt, tk, nm, dn, ev, fr, hid) == [dt |-> dt, tk |-> tk, nm |-> nm, dn |-> dn, ev |-> ev, fr |-> fr, hid |-> hid]
@@ -247,7 +246,6 @@ Pos01 == IF "pos" \in Kinds THEN {0, 1} ELSE {0}
 BinC(op, V) == {C(op, <<AV(p[1]), AV(p[2])>>, NoAt, 0) : p \in Pick({p \in V \X V : D(p[1]) = D(p[2])})}
                \cup UNION {{C(op, <<AV(q[1]), AL(q[2])>>, NoAt, 0), C(op, <<AL(q[2]), AV(q[1])>>, NoAt, 0)} :
                             q \in Pick({q \in V \X DOMAIN L : q[2] \in SLits(D(q[1])) \cup LLits(D(q[1]))})}
-Ats(S) == Pick(S)
 Cands(op) ==
   CASE op \in {"Add", "Sub", "Mul", "Div", "Min", "Max", "Equal", "Less", "Greater", "LessOrEqual", "GreaterOrEqual"} -> BinC(op, NumV)
     [] op = "Mod" -> BinC(op, {v \in NumV : D(v) = "i64"})
